@@ -247,7 +247,7 @@ func TestC39RoundTrip(t *testing.T) {
 	} else if kit.ReplayMode() {
 		t.Skip()
 	}
-	kit.SetChecks(1_500, 15_000)
+	kit.SetChecks(700, 6_000)
 	rapid.Check(t, func(rt *rapid.T) {
 		var c c39RoundTripCase
 		n := rapid.IntRange(0, 25).Draw(rt, "nfiles")
@@ -447,9 +447,9 @@ func checkReadArchive(s *kit.Session, f kit.Failer, c any, a c39Archive, data []
 		allocMB = float64(m1.TotalAlloc-m0.TotalAlloc) / (1 << 20)
 		// The reader may hold at most the limits (96 MiB total + one 8 MiB entry in
 		// flight); growing the buffers by doubling/1.25x costs a small multiple of
-		// that in cumulative allocation. 8x the total limit is far below what
+		// that in cumulative allocation. 4x the total limit (measured: 208 MiB on the 13 x 7.9 MiB archive) is far below what
 		// reading an unbounded entry costs (the bombs below are 1-3 GiB cumulative).
-		if allocMB > 8*96 {
+		if allocMB > 4*96 {
 			s.Fail(f, c, "read-archive-unbounded-allocation", "ReadArchive allocated %.0f MiB in total on a %d-byte archive (limits: 8 MiB per file, 96 MiB per archive)", allocMB, len(data))
 			return nil, false, true, allocMB
 		}
@@ -652,7 +652,7 @@ func TestC39Hostile(t *testing.T) {
 // TestC39Limits: the few heavy cases (size limits and allocation bound).
 func TestC39Limits(t *testing.T) {
 	s := kit.Begin(t, "C39", "limits",
-		"fixed list of heavy archives: one regular entry of 8 MiB-1 / 8 MiB / 8 MiB+1 / 20 MiB / 300 MiB (zeros: a gzip bomb) alone or after small files; 13 entries of 7.9 MiB (total > 96 MiB, each below the per-file limit); a header declaring 1 TiB followed by 1 MiB. Oracle as in hostile-archive plus: cumulative allocation of the call (runtime.MemStats.TotalAlloc delta) <= 8 x 96 MiB. Non-trivial: every case")
+		"fixed list of heavy archives: one regular entry of 8 MiB-1 / 8 MiB / 8 MiB+1 / 20 MiB / 300 MiB (zeros: a gzip bomb) alone or after small files; 13 entries of 7.9 MiB (total > 96 MiB, each below the per-file limit); a header declaring 1 TiB followed by 1 MiB. Oracle as in hostile-archive plus: cumulative allocation of the call (runtime.MemStats.TotalAlloc delta) <= 4 x 96 MiB. Non-trivial: every case")
 	defer s.End()
 	var rc c39HostileCase
 	if ok, err := kit.LoadReplay("C39", "limits", &rc); ok {
@@ -663,6 +663,9 @@ func TestC39Limits(t *testing.T) {
 		return
 	} else if kit.ReplayMode() {
 		t.Skip()
+	}
+	if !shard0() {
+		t.Skip("fixed list: first shard only")
 	}
 	s.Exhaustive()
 	small := c39Entry{Name: "pkg/small.go", Type: "reg", Content: c39Content{Kind: "text", Seed: 1, Len: 300}, Declared: -1}
